@@ -15,7 +15,7 @@ COMMON_ASSUMPTIONS = [
     "applicable) and are trusted leaves; explicit sites there are inventoried",
 ]
 
-TOTAL_FLOORS = {"C01": 28, "C02": 13, "C03": 7, "C05": 98, "C06": 36, "C07": 54, "C08": 11, "C09": 12, "C10": 5,
+TOTAL_FLOORS = {"C15": 23, "C01": 28, "C02": 13, "C03": 7, "C05": 98, "C06": 36, "C07": 54, "C08": 11, "C09": 12, "C10": 5,
                 "C13": 8, "C16": 30, "C17": 48, "C18": 6, "C20": 150}
 
 
@@ -155,6 +155,17 @@ def rules_C03(ctx):
     return total_for("C03", ctx) + overflow_for("C03", ctx) + [unimpl.run(ctx, "all"), guard.zero_divisor(ctx)] + operators_for("C03")(ctx)
 
 
+KERNEL_FILES = ("src/algorithms/mul.rs", "src/algorithms/add.rs", "src/algorithms/ops.rs", "src/algorithms/shift.rs",
+                "src/algorithms/mod.rs")
+
+
+def rules_C15(ctx):
+    return total_for("C15", ctx) + overflow_for("C15", ctx) + [
+        flag.carry_liveness(ctx, "all", files=KERNEL_FILES, label="C15", floor=4),
+        flag.flag(ctx, "all", {"src/algorithms/mul.rs"}),
+        extremes.kernels(ctx)]
+
+
 def rules_C16(ctx):
     return total_for("C16", ctx) + overflow_for("C16", ctx) + [codec.run(ctx), codec.compact_modes(ctx), codec.rlp_headers(ctx),
                                                                structural.wf(ctx, marker_generic=False)]
@@ -200,7 +211,8 @@ PROPS = {
              "overflow-checks); (f) each of the 16 + - Neg Sum operator impls forwards to its inherent method with the "
              "operands in order (R-FACADE/operators)",
              "that the limb-wise carry chain computes the sum (e.g. seeded C01-carrying_add-compare is missed)",
-             rules_with_canon("C01", {"src/add.rs"}, lambda ctx: flag_for({"src/add.rs"}, ["add", "sub", "neg"])(ctx) + operators_for("C01")(ctx)),
+             rules_with_canon("C01", {"src/add.rs"}, lambda ctx: flag_for({"src/add.rs"}, ["add", "sub", "neg"])(ctx) + operators_for("C01")(ctx) + [
+                 flag.carry_liveness(ctx, "all", files=("src/add.rs", "src/algorithms/mod.rs"), label="C01", floor=2)]),
              ["that the limb-wise carry chain computes the sum/difference", "abs_diff's value"]),
     "C02": P("C02", "(a) no undischarged panic site under any mul form, inv_ring, Product (R-TOTAL; widening_mul's two "
              "assert_eq! are documented); (b) results canonical on every path, incl. inv_ring for single-limb widths "
@@ -211,7 +223,9 @@ PROPS = {
              "entry reaches an undischarged overflow assertion in overflow-checked builds (R-TOTAL/overflow-checks); (f) the 8 "
              "* / Product operator impls forward to the inherent method (R-FACADE/operators)",
              "products, addmul's truncation bookkeeping (seeded C02-addmul-truncated-row-flag is missed), Hensel lifting",
-             rules_with_canon("C02", {"src/mul.rs"}, lambda ctx: flag_for({"src/mul.rs", "src/algorithms/mul.rs"}, ["mul"])(ctx) + operators_for("C02")(ctx)),
+             rules_with_canon("C02", {"src/mul.rs"}, lambda ctx: flag_for({"src/mul.rs", "src/algorithms/mul.rs"}, ["mul"])(ctx) + operators_for("C02")(ctx) + [
+                 flag.carry_liveness(ctx, "all", files=("src/mul.rs", "src/algorithms/mul.rs", "src/algorithms/ops.rs"),
+                                     label="C02", floor=2)]),
              ["products", "trimming / truncation bookkeeping in addmul", "Hensel lifting"]),
     "C03": P("C03", "(a) checked_div/checked_rem/checked_next_multiple_of and their num-traits facades reach the 'Divisor "
              "is zero' site only behind a dominating non-zero test of that call's divisor (R-TOTAL, D-zero predicate "
@@ -308,6 +322,24 @@ PROPS = {
              "overflow-checks, reviewed rows for bit_len - 1 and most_significant_bits)",
              "values, the square-and-multiply loop (seeded C13-pow-limbwise-exponent is missed), termination of root, float "
              "estimates inside log (trusted rows)", rules_C13, ["values", "termination of root", "float estimates inside log"]),
+    "C15": P("C15", "(a) the 15 limb kernels named by the property and the DoubleWord primitives (23 functions) reach no "
+             "panic site for any slice lengths and contents: every bounds check, slice range, split_at and length "
+             "assumption in mul.rs / add.rs / ops.rs / shift.rs / mod.rs is discharged by the interval interpretation "
+             "(equal-length unification through assume! / assert_eq!, min(), Rev<Range>, slice patterns), the remaining "
+             "sites being the documented preconditions -- equal lengths for addmul_n / addmul_nx1 / submul_nx1, rhs at "
+             "least as long as lhs for adc_n / sbb_n (R-TOTAL, reviewed rows); (b) in builds with arithmetic overflow "
+             "checks no kernel reaches an undischarged overflow assertion except under the shift helpers' documented "
+             "amount precondition 0 < amount < 64 and one reviewed arithmetic row (R-TOTAL/overflow-checks); (c) a carry / "
+             "borrow word returned by carrying_add, borrowing_sub, adc, sbb, DoubleWord::split or u64::overflowing_* is "
+             "read on every path before it is overwritten or the kernel returns -- no carry between limbs is dropped "
+             "(R-CARRY, flow-sensitive liveness; 12 call sites); (d) in addmul no indicator returned by addmul_nx1 / "
+             "add_nx1 is dropped on a path that does not already report overflow (R-FLAG); (e) each carry-returning "
+             "kernel can return zero and non-zero (R-EXTREMES/kernels)",
+             "every returned limb and carry value: products, sums, trimming and truncation bookkeeping of addmul, shifted "
+             "bits, the order cmp computes",
+             rules_C15,
+             ["result limbs and carry values of every kernel", "addmul's trimming / truncation bookkeeping",
+              "that cmp orders most-significant first"]),
     "C16": P("C16", "(a) per integration (13 encoder/decoder pairs) both sides use Uint byte-form functions of the byte "
              "order the format defines and agree; SSZ length reporters evaluate to BYTES in every configuration; postgres "
              "accepts/to_sql/from_sql handle the same 17 column types (R-CODEC); in each of the six SCALE compact modes "
